@@ -414,3 +414,56 @@ impl Abs {
         }
     }
 }
+
+
+// ------------------------------------------------------------------ SegmentedCache view and policy spec (shared with W-TinyLFU)
+
+#[derive(Clone, Copy, PartialEq, Eq, Debug)]
+pub struct SegAbs {
+    pub probationary: Abs,
+    pub protected: Abs,
+    pub probationary_size: usize,
+    pub protected_size: usize,
+}
+
+/// promotion of probationary entry i (optionally storing a new value): the SLRU rule of C07.
+/// Returns (probationary', protected').
+pub fn spec_promote(pre: &SegAbs, i: usize, newval: Option<u8>) -> (Abs, Abs) {
+    let k = pre.probationary.k[i];
+    let v = match newval {
+        Some(v) => v,
+        None => pre.probationary.v[i],
+    };
+    let pb1 = pre.probationary.remove_at(i);
+    if pre.protected.n < pre.protected.cap {
+        (pb1, pre.protected.push_front(k, v))
+    } else {
+        let (dk, dv) = (pre.protected.k[pre.protected.n - 1], pre.protected.v[pre.protected.n - 1]);
+        // protected's least-recent entry is demoted to probationary's most-recent end, never evicted
+        (pb1.push_front(dk, dv), pre.protected.drop_last().push_front(k, v))
+    }
+}
+
+/// SegmentedCache::put at view level: (probationary', protected', result)
+pub fn spec_seg_put(pre: &SegAbs, k: u8, v: u8) -> (Abs, Abs, PR) {
+    if let Some(i) = pre.protected.pos(k) {
+        (pre.probationary, pre.protected.touch(i, Some(v)), PR::Update(pre.protected.v[i]))
+    } else if let Some(i) = pre.probationary.pos(k) {
+        let (pb, pt) = spec_promote(pre, i, Some(v));
+        (pb, pt, PR::Update(pre.probationary.v[i]))
+    } else {
+        let (pb, r) = spec_lru_put(&pre.probationary, k, v);
+        (pb, pre.protected, r)
+    }
+}
+
+/// SegmentedCache::get / get_mut at view level: (probationary', protected')
+pub fn spec_seg_get(pre: &SegAbs, k: u8, newval: Option<u8>) -> (Abs, Abs) {
+    if let Some(i) = pre.protected.pos(k) {
+        (pre.probationary, pre.protected.touch(i, newval))
+    } else if let Some(i) = pre.probationary.pos(k) {
+        spec_promote(pre, i, newval)
+    } else {
+        (pre.probationary, pre.protected)
+    }
+}
